@@ -178,6 +178,7 @@ func planC12(c *Ctx, run int64) *Plan {
 					add(cat.Code, rate.Key, d, 6, q) // value date later than the issue date, operation date present
 					add(cat.Code, rate.Key, d, 7, q) // an order instead of an invoice
 					add(cat.Code, rate.Key, d, 8, q) // a delivery, with a despatch date that is not the tax date
+					add(cat.Code, rate.Key, d, 10, q) // the combo spells out the regime's own country
 					add(cat.Code, rate.Key, d, 9, q) // no issue date (the clock supplies it), the value date is the tax date
 					if d >= "2000-01-02" {
 						add(cat.Code, rate.Key, d, 0, q)
@@ -400,7 +401,7 @@ func c12one(x *X, reg *pubRegime, loc *time.Location, cs c12case, step int, stal
 	if len(tags) > 0 {
 		doc["$tags"] = tags
 	}
-	mode := []string{"clock-00:00:00", "clock-12:00:00", "clock-23:59:59", "issue_date", "value_date", "foreign-combo", "value_date-after-issue", "order", "delivery", "value_date-on-undated-document"}[op.I]
+	mode := []string{"clock-00:00:00", "clock-12:00:00", "clock-23:59:59", "issue_date", "value_date", "foreign-combo", "value_date-after-issue", "order", "delivery", "value_date-on-undated-document", "own-country-spelled-out"}[op.I]
 	switch op.I {
 	case 3:
 		doc["issue_date"] = D
@@ -412,6 +413,9 @@ func c12one(x *X, reg *pubRegime, loc *time.Location, cs c12case, step int, stal
 		doc["issue_date"] = dateAdd(D, -400)
 		doc["value_date"] = D
 		doc["op_date"] = dateAdd(D, -800)
+	case 10:
+		doc["issue_date"] = D
+		combo["country"] = strings.ToUpper(reg.Country)
 	case 9:
 		// the issue date is left to the clock; the value date says when the tax applies
 		doc["value_date"] = D
